@@ -113,4 +113,17 @@ C34_Table ==
         upper == Max(refresh, minRefresh)
     IN  /\ w >= lower /\ w <= upper
         /\ (minRefresh # 0 /\ expiry # 0 /\ expiry < refresh) => w = Max(expiry, minRefresh)
+
+(* The expiry that counts is that of the data set of the run just          *)
+(* completed (SharedHistory::update installs the new snapshot, which       *)
+(* carries it, whether or not the payload differs; mark_update_done reads  *)
+(* it from there).  Seeded fault "keep_unchanged_snapshot": a run whose    *)
+(* payload equals the previous one leaves the old snapshot, and with it    *)
+(* the old expiry, in place.                                               *)
+ExpiryUsed(prev, cur, changed) ==
+  IF Variant = "keep_unchanged_snapshot" /\ ~changed THEN prev ELSE cur
+C34_LatestRunCounts ==
+  \A refresh \in Times, minRefresh \in Times \cup {0}, prev \in Times \cup {0}, cur \in Times \cup {0},
+     changed \in BOOLEAN :
+    RefreshWait(refresh, minRefresh, ExpiryUsed(prev, cur, changed)) = RefreshWait(refresh, minRefresh, cur)
 =============================================================================
